@@ -508,6 +508,11 @@ def r5(ctx, F, eff):
             if discarded and short == 'remove_file' and t['args'] and removes_own_staging(F, b, t['args'][0]):
                 ctx.ok('C04.R5', key, 'best-effort removal of the staging file this handle created (a leftover staging name is allowed; nothing of the plan depends on it)', term_loc(b, bi))
                 continue
+            if discarded and short == 'remove_dir':
+                # pruning an emptied directory: rmdir fails exactly when something is still there, which is the wanted outcome -
+                # no file of the plan depends on it
+                ctx.ok('C04.R5', key, 'best-effort pruning of an emptied directory (a refusal means it is not empty: nothing of the plan is lost)', term_loc(b, bi))
+                continue
             if discarded:
                 ctx.bad('C04.R5', key, 'the result of %s in %s is discarded (`let _ =`): a failure leaves the destination outside the plan while the run exits 0' % (short, top),
                         term_loc(b, bi))
@@ -520,6 +525,14 @@ def r5(ctx, F, eff):
                     r = fl.cfg.reach(tt)
                     reports = any(b.blocks[x]['term']['k'] == 'call' and (callee(b.blocks[x]['term']) or '').endswith(('from_residual', 'record_err'))
                                   for x in r) or any(st['dst']['l'] == 0 and st['rv'].get('vname') == 'Err' for x in r for st in b.blocks[x]['stmts'])
+                    if not reports:
+                        # the error is handed to a local closure that records it (`let fail = |rel, e| progress.record_err(..)`)
+                        for x in r:
+                            tx = b.blocks[x]['term']
+                            if tx['k'] == 'call' and (callee(tx) or '') in ('std::ops::Fn::call', 'std::ops::FnMut::call_mut', 'std::ops::FnOnce::call_once'):
+                                cb_ = F.body(callee_resolved(tx) or '')
+                                if cb_ is not None and flow_of(cb_).calls(lambda c2: c2.endswith('record_err')):
+                                    reports = True
                     if not reports and b.local_ty(0) == '()':
                         silent = True
                 if silent:
